@@ -39,14 +39,14 @@ type stageSpec struct {
 
 // step is one application of library combinators, paired with its reference semantics.
 type step struct {
-	name     string                // library call site (hit counter, violation key)
-	cost     int                   // number of library stages it adds (look-ahead allowance)
-	apply    func(c cur) cur       // the library
-	model    func(up ir.P) ir.P    // zero-look-ahead pull semantics
-	slice    func(xs []int) []int  // plain-slice semantics
-	prefetch bool                  // holds one computed output from construction on
-	barrier  bool                  // consumes its whole input by its meaning
-	to       int                   // world after the step
+	name     string               // library call site (hit counter, violation key)
+	cost     int                  // number of library stages it adds (look-ahead allowance)
+	apply    func(c cur) cur      // the library
+	model    func(up ir.P) ir.P   // zero-look-ahead pull semantics
+	slice    func(xs []int) []int // plain-slice semantics
+	prefetch bool                 // holds one computed output from construction on
+	barrier  bool                 // consumes its whole input by its meaning
+	to       int                  // world after the step
 }
 
 func itStep(name string, cost int, ap func(fp.Iterator[int]) fp.Iterator[int], model func(ir.P) ir.P, sl func([]int) []int) step {
@@ -302,7 +302,9 @@ func planIter(sp stageSpec, v int, e *env) []step {
 				return iterator.FromSeq(append([]int(nil), xs[:h]...)).Concat(iterator.FromSeq(append([]int(nil), xs[h:]...))).Concat(it)
 			}, m, sl)}
 		}
-		return []step{itStep("Iterator.Concat(seq,it)", 1, func(it fp.Iterator[int]) fp.Iterator[int] { return iterator.FromSeq(append([]int(nil), xs...)).Concat(it) }, m, sl)}
+		return []step{itStep("Iterator.Concat(seq,it)", 1, func(it fp.Iterator[int]) fp.Iterator[int] {
+			return iterator.FromSeq(append([]int(nil), xs...)).Concat(it)
+		}, m, sl)}
 	case "append":
 		xs := sp.Xs
 		m := func(up ir.P) ir.P { return ir.Append(up, xs) }
@@ -316,7 +318,9 @@ func planIter(sp stageSpec, v int, e *env) []step {
 				return it.Concat(iterator.FromSeq(append([]int(nil), xs[:h]...)).Concat(iterator.FromSeq(append([]int(nil), xs[h:]...))))
 			}, m, sl)}
 		}
-		return []step{itStep("Iterator.Concat(it,seq)", 1, func(it fp.Iterator[int]) fp.Iterator[int] { return it.Concat(iterator.FromSeq(append([]int(nil), xs...))) }, m, sl)}
+		return []step{itStep("Iterator.Concat(it,seq)", 1, func(it fp.Iterator[int]) fp.Iterator[int] {
+			return it.Concat(iterator.FromSeq(append([]int(nil), xs...)))
+		}, m, sl)}
 	case "zipIdx":
 		m := func(up ir.P) ir.P { return ir.ZipWith(up, idxOther, mix, true) }
 		sl := func(xs []int) []int { return ir.ZipWithS(xs, idxOther, mix) }
